@@ -557,6 +557,9 @@ func main() {
 	if *mode == "all" || *mode == "lib" {
 		runLib(r, mkdir(filepath.Join(*dir, "lib")), *thorough)
 	}
+	if *mode == "verifysig" {
+		runVerifySignal(r, mkdir(filepath.Join(*dir, "verify")), *thorough)
+	}
 	if *mode == "all" || *mode == "cli" {
 		runCLI(r, mkdir(filepath.Join(*dir, "cli")), *thorough)
 		runVerifySignal(r, mkdir(filepath.Join(*dir, "verify")), *thorough)
